@@ -480,3 +480,62 @@ if "determinism.control_several_hooks" not in CATALOGUE:
         for i in range(n):
             sim.schedule(ev(rng.choice([0, 1_000_000, 2_500_000]) * (i % 7 + 1), "Req", rng.choice(workers)))
         return Scenario(sim, {"journal": j, "w0": workers[0], "w1": workers[1], "w2": workers[2]}, "determinism", True, n)
+
+
+if "determinism.mq_same_instant_requeue" not in CATALOGUE:
+
+    @scenario("determinism.mq_same_instant_requeue", "determinism")
+    def mq_same_instant_requeue(seed, params):
+        """Several messages published at exactly the same instant, a consumer that rejects some of them with
+        requeue and lets others time out: the order in which distinguishable payloads reach the consumer is
+        public history (message ids are uuid4 labels and must not decide it)."""
+        from happysimulator.components.messaging import MessageQueue
+
+        rng = random.Random(seed)
+        mq = MessageQueue("mq", delivery_latency=0.001, redelivery_delay=0.004, max_redeliveries=3)
+
+        class Worker(Entity):
+            def __init__(self):
+                super().__init__("worker")
+                self.order = []
+                self.seen = {}
+
+            def handle_event(self, event):
+                if event.event_type != "message_delivery":
+                    return None
+                n = event.context["payload"].context["metadata"]["n"]
+                mid = event.context.get("message_id")
+                self.order.append(n)
+                k = self.seen[n] = self.seen.get(n, 0) + 1
+                yield 0.0005
+                out = []
+                if k == 1 and n % 2 == 1:
+                    mq.reject(mid, requeue=True)
+                elif k == 1 and n % 5 == 0:
+                    e = mq.schedule_redelivery(mid)
+                    if e is not None:
+                        out.append(e)
+                else:
+                    mq.acknowledge(mid)
+                out.append(Event(time=self.now, event_type="poll", target=mq))
+                return out
+
+        worker = Worker()
+        mq.subscribe(worker)
+
+        class Producer(Entity):
+            def handle_event(self, event):
+                n = event.context["metadata"]["n"]
+                payload = Event(time=self.now, event_type="Order", target=worker, context={"metadata": {"n": n}})
+                yield from mq.publish(payload)
+                return [Event(time=self.now, event_type="poll", target=mq)]
+
+        prods = [Producer(f"p{i}") for i in range(3)]
+        sim = make_sim([mq, worker, *prods], 5.0)
+        n = 0
+        for burst in range(rng.choice([2, 3])):
+            t = burst * 50_000_000
+            for _ in range(rng.choice([4, 6])):
+                sim.schedule(ev(t, "go", rng.choice(prods), n=n))  # the same nanosecond for the whole burst
+                n += 1
+        return Scenario(sim, {"mq": mq, "worker": worker}, "determinism", True, n)
